@@ -66,10 +66,11 @@ def run(tier, seed, rep):
     evs = []
     for j in range(3000 if thorough else 400):
         alpha = rnd.choice(["AK", "PEK", anngen.RES22])
+        # a third of the targets carry ambiguity intervals (queries and occurrences never cut through one, see below)
         T = anngen.annotation(rnd, 1, 40, alphabet=alpha, density=rnd.choice([0.1, 0.3, 0.6]),
-                              p={"interval": 0, "charge": 0.1, "unknown": 0.1, "labile": 0.1})
+                              p={"interval": 0.5 if j % 3 == 0 else 0, "charge": 0.1, "unknown": 0.1, "labile": 0.1})
         # make repeats likely: duplicate a modified stretch
-        if len(T["seq"]) >= 6 and rnd.random() < 0.6:
+        if len(T["seq"]) >= 6 and rnd.random() < 0.6 and not T["intervals"]:
             k = rnd.randint(1, 3)
             for off in range(k):
                 T["seq"][k + off] = T["seq"][off]
@@ -98,6 +99,12 @@ def run(tier, seed, rep):
                     Q["internal"].sort(key=lambda x: x["i"])
             elif r_ < 0.5:
                 Q["seq"][rnd.randrange(len(Q["seq"]))] = rnd.choice("AKP")
+            if T["intervals"]:
+                # what a stretch that cuts through an interval carries is not defined: no occurrence of the residues may do so
+                qs, ts = "".join(Q["seq"]), "".join(T["seq"])
+                offs = [o_ for o_ in range(n - len(qs) + 1) if ts[o_:o_ + len(qs)] == qs]
+                if any(iv["s"] < x < iv["e"] for iv in T["intervals"] for o_ in offs for x in (o_, o_ + len(qs))):
+                    continue
             subs.append(Q)
             # the same two annotation objects serve the search that ignores modifications and then the one that does not
             objs = (anngen.build(pp, T), anngen.build(pp, Q))
